@@ -515,6 +515,12 @@ def path_pair(rng, ints, mode):
     elif mode == 'degenerate':
         p = rpt(rng, ints)
         s2 = [Line(p.clone(), p.clone())]
+    elif mode == 'near':
+        # disjoint paths whose gap is a fraction of a unit: two axis-parallel boxes g apart (squared and plain distances differ most below 1)
+        g = rng.choice([0.5, 0.25, 0.125, rng.uniform(0.05, 0.95)])
+        w, h = rng.uniform(5, 60), rng.uniform(5, 60)
+        def boxp(x0, y0, x1, y1): return [Line(P(x0, y0), P(x1, y0)), Line(P(x1, y0), P(x1, y1)), Line(P(x1, y1), P(x0, y1)), Line(P(x0, y1), P(x0, y0))]
+        s1 = boxp(0.0, 0.0, w, h); s2 = boxp(w + g, rng.uniform(-h, h) * 0.5, w + g + rng.uniform(5, 40), h)
     else:
         s2 = rpath(rng, rng.randint(1, 4), ints)
         if rng.random() < 0.5:
@@ -569,7 +575,7 @@ def search(ctx):
         if len(samples) < 2: samples.append({'bez1': gen.seg_json(a), 'bez2': gen.seg_json(b), 'mode': mode})
     for _ in range(ctx.n(50, 1200)):
         ints = rng.random() < 0.45
-        mode = rng.choice(['disjoint', 'disjoint', 'touch', 'cross', 'identical', 'degenerate'])
+        mode = rng.choice(['disjoint', 'disjoint', 'touch', 'cross', 'identical', 'degenerate', 'near'])
         s1, s2 = path_pair(rng, ints, mode)
         ev += 1
         key = f'paths {mode}/{"int" if ints else "float"}'
